@@ -153,6 +153,39 @@ inductive Derivable (k : Nat) (sent own : List Frame) : Frame → Prop
   | broken : Derivable k sent own .broken
   | otherKey {k' : Nat} {pt : Plain} : k' ≠ k → Derivable k sent own (.sealed k' pt)
 
+/-! ### AES-GCM as the code uses it: ONE nonce for every frame of a connection, both directions
+
+(client.go: `c.dhNonce = dhBytes[32:44]`, `aesgcm.Seal(nil, c.dhNonce, text, nil)`.)  The ideal-AEAD
+adversary `Derivable` above is NOT what the code gives (review finding 1, replayed on the real nodes
+by the `gcm` cases): with a repeated nonce the keystream and the mask of the tag are the same for every
+frame, two frames give the GHASH key (a polynomial equation in H), and from then on the man in the
+middle — still without the AES key and without any signing key — can seal ANY plaintext he can write
+down.  What he cannot write down is a BLS signature he has not seen: `KnownPlain`. -/
+
+def sealedUnder (k : Nat) : Frame → Bool
+  | .sealed k' _ => k' == k
+  | _ => false
+
+/-- two DIFFERENT frames sealed under the session key have been on the wire -/
+def TwoSeen (k : Nat) (seen : List Frame) : Prop :=
+  ∃ f g, f ∈ seen ∧ g ∈ seen ∧ f ≠ g ∧ sealedUnder k f = true ∧ sealedUnder k g = true
+
+/-- plaintexts the man in the middle can put together: anything, as long as a BLS signature in it is
+one that was in a frame he has seen (he cannot sign) -/
+def KnownPlain (seen : List Frame) : Plain → Prop
+  | .pkg p =>
+    match p.sig with
+    | .bad _ => True
+    | .good sk m => ∃ k' q, Frame.sealed k' (.pkg q) ∈ seen ∧ q.sig = .good sk m
+  | _ => True
+
+/-- the man in the middle the CODE faces: everything the ideal-AEAD one can do, plus, once two frames
+of the connection were seen, a valid seal on any plaintext he knows -/
+inductive DerivableGCM (k : Nat) (sent own : List Frame) : Frame → Prop
+  | ideal {f : Frame} : Derivable k sent own f → DerivableGCM k sent own f
+  | forged {pt : Plain} : TwoSeen k (sent ++ own) → KnownPlain (sent ++ own) pt →
+      DerivableGCM k sent own (.sealed k pt)
+
 /-! ### driver -/
 
 def nTypes : Nat := 4
@@ -291,9 +324,35 @@ def stepOwn (checkAny drains : Bool) (items : String) : String :=
   | none => "bad-op"
   | some frames => showOut its.length (recvAll (theConn checkAny drains) frames)
 
+/-- `gcm <ops>` (go/props/c16/gcm.go): A sends Ping{7}, Ping{7}, Ping{8} (the proxy recovers the GHASH
+key), the victim Ping{7}, Ping{9}; per op the proxy replaces the victim by / injects after it a frame
+it sealed itself: P type 0→1, B type 0→1 and another nonce, N another nonce, C the P alteration with
+the old tag (not a Seal output).  The forgeries carry the victim's value and signature. -/
+def stepGcm (checkAny drains : Bool) (ops : String) : String :=
+  let ping (v n : Nat) : Frame := pack 7 1 [65] { typ := 0, value := [UInt8.ofNat v] } n false
+  let forge (t n : Nat) : Frame :=
+    .sealed 1 (.pkg { any := some { typ := t, value := [7] }, sig := .good 7 [7], sender := [65], nonce := n })
+  let opl := if ops == "-" then [] else ops.splitOn ","
+  let victim := if opl.contains "P" then [] else [ping 7 3]
+  let extra := opl.filterMap fun op =>
+    match op with
+    | "P" => some (forge 1 3)
+    | "B" => some (forge 1 88)
+    | "N" => some (forge 0 45)
+    | "C" => some (.raw 9)
+    | _ => none
+  if extra.length ≠ opl.length then "bad-op" else
+  let st := recvAll (theConn checkAny drains) ([ping 7 0, ping 7 1, ping 8 2] ++ victim ++ extra ++ [ping 9 4])
+  let cnt (t v : Nat) : Nat := ((toSubscriber t st.out).filter fun d => d.value = [UInt8.ofNat v]).length
+  let d7 : Int := (cnt 0 7 : Int) - 3
+  let conn := if cnt 0 9 = 1 then "live" else "dead"
+  let alive := if st.crashed then "no" else "yes"
+  s!"gcm h=ok dping7={d7} ping8={cnt 0 8} ping9={cnt 0 9} pong={(toSubscriber 1 st.out).length} conn={conn} alive={alive}"
+
 def driverStep (checkAny drains : Bool) (line : String) : String :=
   match words line with
   | ["mitm", msgs, ops] => stepMitm checkAny drains msgs ops
+  | ["gcm", ops] => stepGcm checkAny drains ops
   | ["own", items] => stepOwn checkAny drains items
   | ["race", n] =>
     -- n independent honest connections with one message each (a failed handshake on ANOTHER
